@@ -116,19 +116,6 @@ theorem newSink_target_only_if (isAbs : Bool) (raw : String) (parsed : Option (S
       · simp only [hs, if_false] at h
         cases hr : reg (if scheme = "" then "file" else scheme) <;> simp [hr] at h
 
-theorem lower_invariants :
-    (∀ c : UInt8, isLetter (asciiLower c) = isLetter c) ∧ (∀ c : UInt8, schemeRest (asciiLower c) = schemeRest c) := by
-  constructor <;> (apply all256; decide +kernel)
-
-theorem normalize_lower (s : Bytes) : normalizeScheme (lowerBytes s) = normalizeScheme s := by
-  cases s with
-  | nil => rfl
-  | cons c r =>
-    have h := lowerBytes_idem (c :: r)
-    simp only [lowerBytes, List.map_cons] at h ⊢
-    simp only [normalizeScheme, lower_invariants.1, List.all_map, Function.comp_def, lower_invariants.2]
-    simp only [lowerBytes, List.map_cons, h]
-
 /-- schemes are matched case-insensitively: two spellings that differ only in ASCII letter case are accepted
     or rejected together, normalise to the same registry key, and resolve to the same factory -/
 theorem scheme_case_insensitive (a b : Bytes) (h : lowerBytes a = lowerBytes b) (reg : Reg) :
